@@ -231,8 +231,21 @@ def run_case(case, tier):
                 h = H()
                 h.msg_type = cls.type_id
                 h.msg_count = rng.randint(0, 2 ** 31 - 1)
-                h.send_time = rng.choice([0.0, 1.5, 1e300, -0.0])
-                h.recv_time = rng.random()
+                # every value the validated header API accepts, specials included
+                for fld in ("send_time", "recv_time"):
+                    for v in rng.sample([0.0, 1.5, 1e300, -0.0, float("nan"), float("inf"), float("-inf"), 5e-324,
+                                         1.7976931348623157e308, rng.random(), -rng.random() * 1e9], 11):
+                        try:
+                            setattr(h, fld, v)
+                            break
+                        except (ValueError, TypeError):
+                            continue
+                for fld, hi in (("remaining_bytes", 2 ** 31 - 1), ("is_dynamic", 1), ("reserved", 2 ** 32 - 1)):
+                    if hasattr(h, fld) and rng.random() < 0.5:
+                        try:
+                            setattr(h, fld, rng.choice([0, 1, hi]))
+                        except (ValueError, TypeError):
+                            pass
                 h.src_host_id, h.src_mod_id, h.dest_host_id, h.dest_mod_id = rng.randint(0, 5), rng.randint(0, 200), 0, rng.randint(0, 200)
                 h.num_data_bytes = ctypes.sizeof(cls)
                 h.version = rng.choice([0, cls.type_hash])
